@@ -31,12 +31,18 @@ Record deviations := {
   d_start_order : bool;      (* D121 new subsystem: delayed decorator managers start in set-iteration order *)
   d_pending_zombie : bool;   (* D122 new subsystem: a manager whose function was rebound/deleted before start still starts *)
   d_limit_kw : bool;         (* D123 entity-method calls pass `limit` to hass.services.async_call, which rejects it *)
-  d_rt_owner : bool          (* D124 new subsystem: a @service function created at run time inside a running function is owned by that
+  d_rt_owner : bool;         (* D124 new subsystem: a @service function created at run time inside a running function is owned by that
                                 function's evaluation context name (file.a.build), not by its global context *)
+  d_stack_rollback : bool;   (* D125 new subsystem: several @service decorators on one function: the first refused name makes start() fail
+                                and the names registered before it are taken back *)
+  d_interleave : bool;       (* D127 new subsystem: the start-ups of the delayed managers of one (re)load run interleaved, one decorator per turn *)
+  d_spurious_remove : bool   (* D126 new subsystem: a manager stopped while its start-up is suspended between two decorators also "stops" the
+                                decorators that never started: service_remove of names it does not hold (Life/ServicesMid.v) *)
 }.
 Definition all_off : deviations :=
   {| d_stale_handler := false; d_no_alias := false; d_dup_set := false; d_alias_abort := false;
-     d_start_order := false; d_pending_zombie := false; d_limit_kw := false; d_rt_owner := false |}.
+     d_start_order := false; d_pending_zombie := false; d_limit_kw := false; d_rt_owner := false;
+     d_stack_rollback := false; d_interleave := false; d_spurious_remove := false |}.
 
 (* ---------- supports_response ---------- *)
 Inductive srd := DAbs | DNone | DOpt | DOnly.          (* as written in the decorator *)
@@ -53,6 +59,7 @@ Definition hinfo : Type := (gen * srm)%type.
 Inductive stmt :=
   | SDef (f : fid) (decl : list key) (sr : srd)      (* @service(decl..., supports_response=sr) def f(kwargs): ... *)
   | SDefRt (f : fid) (decl : list key) (sr : srd)    (* the same definition made at run time by a service function (`global f`) *)
+  | SDefSt (f : fid) (decl : list key) (sr : srd)    (* one @service(name, supports_response=sr) decorator per name, stacked on f *)
   | SDel (f : fid).                                  (* del f *)
 
 Inductive op :=
@@ -72,7 +79,8 @@ Record frec := mk_frec {
   f_pending : bool;         (* new: validated, waiting for ctx.start() *)
   f_inc : N;                (* which incarnation (load) of its context it was defined in: all function objects of one
                                incarnation hang on the same GlobalContext object and keep each other reachable *)
-  f_own : N                 (* the owner name it registers under (its context, except D124) *)
+  f_own : N;                (* the owner name it registers under (its context, except D124) *)
+  f_stk : bool              (* its names come from several stacked @service decorators *)
 }.
 
 Record st := mk_st {
@@ -144,13 +152,13 @@ Definition refresh (s : st) (k : key) : st :=
 Definition upd_rec (g : gen) (f : frec -> frec) (l : list frec) : list frec :=
   map (fun r => if N.eqb (f_gen r) g then f r else r) l.
 Definition with_held (h : list key) (r : frec) :=
-  mk_frec (f_ctx r) (f_name r) (f_gen r) (f_sr r) (f_decl r) h (f_bound r) (f_tracked r) (f_pending r) (f_inc r) (f_own r).
+  mk_frec (f_ctx r) (f_name r) (f_gen r) (f_sr r) (f_decl r) h (f_bound r) (f_tracked r) (f_pending r) (f_inc r) (f_own r) (f_stk r).
 Definition with_bound (b : bool) (r : frec) :=
-  mk_frec (f_ctx r) (f_name r) (f_gen r) (f_sr r) (f_decl r) (f_held r) b (f_tracked r) (f_pending r) (f_inc r) (f_own r).
+  mk_frec (f_ctx r) (f_name r) (f_gen r) (f_sr r) (f_decl r) (f_held r) b (f_tracked r) (f_pending r) (f_inc r) (f_own r) (f_stk r).
 Definition with_tracked (b : bool) (r : frec) :=
-  mk_frec (f_ctx r) (f_name r) (f_gen r) (f_sr r) (f_decl r) (f_held r) (f_bound r) b (f_pending r) (f_inc r) (f_own r).
+  mk_frec (f_ctx r) (f_name r) (f_gen r) (f_sr r) (f_decl r) (f_held r) (f_bound r) b (f_pending r) (f_inc r) (f_own r) (f_stk r).
 Definition with_pending (b : bool) (r : frec) :=
-  mk_frec (f_ctx r) (f_name r) (f_gen r) (f_sr r) (f_decl r) (f_held r) (f_bound r) (f_tracked r) b (f_inc r) (f_own r).
+  mk_frec (f_ctx r) (f_name r) (f_gen r) (f_sr r) (f_decl r) (f_held r) (f_bound r) (f_tracked r) b (f_inc r) (f_own r) (f_stk r).
 
 (* trigger_stop (legacy: `for srv_name in self.trigger_service` — a set) / ServiceDecorator.stop:
    the function object gives up everything it holds *)
@@ -190,25 +198,34 @@ Definition commit (abort : bool) (s : st) (r : frec) : st :=
   let '(s', held, ok) := reg_loop abort (f_own r) (f_gen r, f_sr r) (f_decl r) s [] in
   set_funcs s' (upd_rec (f_gen r) (fun x => with_tracked ok (with_pending false (with_held held x))) (s_funcs s')).
 
+(* DecoratorManager.start() of a function with several @service decorators: they start one after the other; the first one that is
+   refused raises, the ones already started are stopped again and the manager is INVALID (D125) *)
+Definition commit_rb (cfg : deviations) (legacy : bool) (s : st) (r : frec) : st :=
+  let '(s', held, ok) := reg_loop true (f_own r) (f_gen r, f_sr r) (f_decl r) s [] in
+  let s1 := set_funcs s' (upd_rec (f_gen r) (fun x => with_pending false (with_held held x)) (s_funcs s')) in
+  if ok then s1 else release cfg legacy s1 (with_held held r).
+Definition commit_new (cfg : deviations) (legacy : bool) (s : st) (r : frec) : st :=
+  if d_stack_rollback cfg && f_stk r then commit_rb cfg legacy s r else commit false s r.
+
 (* ast_functiondef for a function decorated with @service.  [started]: the context's auto_start flag.
    Order in the code: the new function object registers (trigger_init / dm.start()), then the name is rebound and the
    previous object is finalised: register-before-remove *)
-Definition do_def (cfg : deviations) (legacy started rt : bool) (c : cid) (f : fid) (decl : list key) (d : srd) (s : st) : st :=
+Definition do_def (cfg : deviations) (legacy started rt stk : bool) (c : cid) (f : fid) (decl : list key) (d : srd) (s : st) : st :=
   let g := s_next s in
   let m := eff_sr legacy d in
   let s0 := set_next s (g + 1)%N in
   let old := find_bound s0 c f in
-  let invalid := negb legacy && d_no_alias cfg && (1 <? N.of_nat (length decl))%N in   (* vol.Length(max=1): manager INVALID *)
+  let invalid := negb legacy && negb stk && d_no_alias cfg && (1 <? N.of_nat (length decl))%N in   (* vol.Length(max=1): manager INVALID *)
   let pend := negb legacy && negb invalid && negb started in
   (* D26 on: every occurrence of a repeated name is registered; conformant: a name is registered once *)
   let decl' := if d_dup_set cfg then decl else nodupN decl in
   (* ServiceDecorator.start registers under self.dm.ast_ctx.name: for a run-time definition that is the AstEval of the
      running function (one maker function per definition in the generated scripts: owner id 1000 + generation) *)
   let own := if rt && negb legacy && d_rt_owner cfg then (1000 + g)%N else c in
-  let nr := mk_frec c f g m decl' [] true (negb invalid) pend (s_inc s c) own in
+  let nr := mk_frec c f g m decl' [] true (negb invalid) pend (s_inc s c) own stk in
   let s1 := set_funcs s0 (s_funcs s0 ++ [nr]) in
   let s2 := if legacy then commit (d_alias_abort cfg) s1 nr
-            else if invalid || pend then s1 else commit false s1 nr in
+            else if invalid || pend then s1 else commit_new cfg legacy s1 nr in
   match old with Some r => unbind cfg legacy s2 r | None => s2 end.
 
 Definition do_del (cfg : deviations) (legacy : bool) (c : cid) (f : fid) (s : st) : st :=
@@ -217,17 +234,18 @@ Definition do_del (cfg : deviations) (legacy : bool) (c : cid) (f : fid) (s : st
 
 Definition run_stmt (cfg : deviations) (legacy started : bool) (c : cid) (s : st) (x : stmt) : st :=
   match x with
-  | SDef f decl d => do_def cfg legacy started false c f decl d s
-  | SDefRt f decl d => do_def cfg legacy started true c f decl d s
+  | SDef f decl d => do_def cfg legacy started false false c f decl d s
+  | SDefRt f decl d => do_def cfg legacy started true false c f decl d s
+  | SDefSt f decl d => do_def cfg legacy started false true c f decl d s
   | SDel f => do_del cfg legacy c f s
   end.
 Definition run_body (cfg : deviations) (legacy started : bool) (c : cid) (b : list stmt) (s : st) : st :=
   fold_left (run_stmt cfg legacy started c) b s.
 
 (* global_ctx.start(): `for dm in self.dms_delay_start: create_task(dm.start())` *)
-Definition start_one (s : st) (g : gen) : st :=
+Definition start_one (cfg : deviations) (s : st) (g : gen) : st :=
   match find (fun r => N.eqb (f_gen r) g) (s_funcs s) with
-  | Some r => if f_pending r then commit false s r else s
+  | Some r => if f_pending r then commit_new cfg false s r else s
   | None => s
   end.
 Definition pending_gens (s : st) (c : cid) : list gen :=
@@ -236,8 +254,49 @@ Definition start_order (cfg : deviations) (oracle pend : list gen) : list gen :=
   if d_start_order cfg
   then filter (fun g => memN g pend) oracle ++ filter (fun g => negb (memN g oracle)) pend
   else pend.
+(* What the code does (D127 on): the start() coroutines of all delayed managers are tasks created one after the other; each
+   runs until its first suspension (`await State.get_service_params()` after a decorator has registered its name) and they
+   are then resumed round-robin.  A manager with several stacked @service decorators therefore registers one name per round,
+   interleaved with the other managers of the batch.  [todo]: per manager the names still to be registered. *)
+Definition with_held_started (h : list key) (r : frec) : frec := with_pending false (with_held h r).
+Definition dm_step (cfg : deviations) (s : st) (g : gen) (ks : list key) : st * list (gen * list key) :=
+  match find (fun r => N.eqb (f_gen r) g) (s_funcs s) with
+  | None => (s, [])
+  | Some r =>
+      if f_stk r then
+        match ks with
+        | [] => (s, [])
+        | k :: rest =>
+            let '(s1, ok) := register s (f_own r) k (g, f_sr r) in
+            if ok then (set_funcs s1 (upd_rec g (with_held_started (f_held r ++ [k])) (s_funcs s1)),
+                        match rest with [] => [] | _ => [(g, rest)] end)
+            else if d_stack_rollback cfg
+                 then (release cfg false (set_funcs s1 (upd_rec g (with_pending false) (s_funcs s1))) r, [])
+                 else (set_funcs s1 (upd_rec g (with_pending false) (s_funcs s1)), match rest with [] => [] | _ => [(g, rest)] end)
+        end
+      else ((if f_pending r then commit false s r else s), [])     (* one decorator: all its names in one go *)
+  end.
+Definition round (cfg : deviations) (s : st) (todo : list (gen * list key)) : st * list (gen * list key) :=
+  fold_left (fun acc gk => let '(s1, more) := dm_step cfg (fst acc) (fst gk) (snd gk) in (s1, snd acc ++ more)) todo (s, []).
+Fixpoint rounds (fuel : nat) (cfg : deviations) (s : st) (todo : list (gen * list key)) : st :=
+  match fuel with
+  | O => s
+  | S fuel' => match todo with [] => s | _ => let '(s1, todo') := round cfg s todo in rounds fuel' cfg s1 todo' end
+  end.
+Definition batch_of (s : st) (gs : list gen) : list (gen * list key) :=
+  concat (map (fun g => match find (fun r => N.eqb (f_gen r) g) (s_funcs s) with
+                        | Some r => if f_pending r then [(g, f_decl r)] else []
+                        | None => [] end) gs).
+Definition batch_fuel (b : list (gen * list key)) : nat := S (length (concat (map snd b))) + length b.
+Definition start_batch (cfg : deviations) (s : st) (gs : list gen) : st :=
+  let b := batch_of s gs in rounds (batch_fuel b) cfg s b.
+
 Definition start_ctx (cfg : deviations) (oracle : list gen) (s : st) (c : cid) : st :=
-  fold_left start_one (start_order cfg oracle (pending_gens s c)) s.
+  if d_interleave cfg then start_batch cfg s (start_order cfg oracle (pending_gens s c))
+  else fold_left (start_one cfg) (start_order cfg oracle (pending_gens s c)) s.
+Definition start_all (cfg : deviations) (oracle : list gen) (s : st) (cs : list cid) : st :=
+  if d_interleave cfg then start_batch cfg s (concat (map (fun c => start_order cfg oracle (pending_gens s c)) cs))
+  else fold_left (start_ctx cfg oracle) cs s.
 
 (* global_ctx.stop() followed by GlobalContextMgr.delete.  Function objects recorded in the context (ctx.triggers / ctx.dms)
    release what they hold and are forgotten.  A legacy function that is NOT recorded (D120) keeps its holdings: nothing
@@ -298,7 +357,7 @@ Definition run_op (cfg : deviations) (legacy : bool) (s : st) (o : op) : st :=
       let s1 := fold_left (stop_ctx cfg legacy) (map fst (s_files s)) s in
       let s2 := set_files s1 (fold_left (fun l p => file_set (fst p) (snd p) l) w (s_files s1)) in
       let s3 := fold_left (fun s p => run_body cfg legacy false (fst p) (snd p) (set_inc s (fst p) (s_next s))) (s_files s2) s2 in
-      if legacy then s3 else fold_left (start_ctx cfg oracle) (map fst (s_files s3)) s3
+      if legacy then s3 else start_all cfg oracle s3 (map fst (s_files s3))
   end).
 
 Definition run_ops (cfg : deviations) (legacy : bool) (ops : list op) (s : st) : st :=
